@@ -47,6 +47,11 @@ TRUSTED = [
     "takes_value_child_entry are not modelled; the registration order and names come from T4",
 ]
 ASSUMPTIONS = [
+    "column entry points (df_util.convert_to_form on a Series / DataFrame with given or all columns, TabularInput and "
+    "SpreadsheetInput convert_to_long/short) are not modelled: columns with several cells -- families equal up to letter "
+    "case that differ or not in the case of a value/extension, repeats, empty cells, one-cell and all-equal columns -- are "
+    "checked cell by cell against the T4 specification and the cell converted alone, with long/short round trips "
+    "(testing; harness/c03_cols.py).  Proved on the model side: C03_extension_is_written",
     "by construction of the model, not proved of the implementation: a lookup leaves the model's table untouched and "
     "reading/copying a HedTag is an identity step (the code in /repo has no memo or cached forms); C03_tag_reads_invisible "
     "and the lookup half of C03_schema_history only record this shape.  Proved: C03_merge_incremental (merging into an "
@@ -150,7 +155,7 @@ def ascii_lower(s):
 def in_alphabet(text):
     """Texts the extracted model may be compared on: str.casefold folds them code point by code point
     (the model's table is CPython's own, so this is a check of that one assumption)."""
-    return text.casefold() == "".join(c.casefold() for c in text)
+    return text.isascii() or text.casefold() == "".join(c.casefold() for c in text)
 
 
 def forms_of(long):
@@ -350,12 +355,17 @@ def model_sessions(exe, sessions):
         return list(ex.map(one, sessions))
 
 
+def dec(a):
+    """a string atom of the driver: 's' + code points joined by '.'"""
+    return "".join(chr(int(x)) for x in a[1:].split(".")) if len(a) > 1 else ""
+
+
 def model_obs(m):
     """driver answer -> same shape as _tagobs"""
     if m[0] == "F":
-        return [C.uncps(m[1]), C.uncps(m[2])] + [C.uncps(x) for x in m[3:10]]
+        return [dec(m[1]), dec(m[2])] + [dec(x) for x in m[3:10]]
     if m[0] == "N":
-        return [None, ""] + [C.uncps(x) for x in m[2:9]]
+        return [None, ""] + [dec(x) for x in m[2:9]]
     return ["<model error>", str(m)]
 
 
@@ -757,10 +767,10 @@ def compare_tables(res, voc, spec, ns, it, mhdr, wf_expected):
         return n_dis + 1
     mtab = {}
     for k, e in reversed(mhdr[2]):
-        mtab[C.uncps(k)] = C.uncps(e)
+        mtab[dec(k)] = dec(e)
     # all_names is a dict keyed by the folded long name: a name registered twice keeps its first position
-    mnames = list(dict.fromkeys(C.uncps(x).casefold() for x in reversed(mhdr[3])))
-    mdups = [(C.uncps(k), C.uncps(nm)) for k, nm in reversed(mhdr[4])]
+    mnames = list(dict.fromkeys(dec(x).casefold() for x in reversed(mhdr[3])))
+    mdups = [(dec(k), dec(nm)) for k, nm in reversed(mhdr[4])]
     idups = []
     for k, lst in it["dups"].items():
         for nm in lst[1:]:
@@ -829,12 +839,12 @@ def _run(tier, seed, res, rng, model_ok, proof_ok):
     add_group(("file", "8_3_0", A["8_3_0"]["file"]), "", v83, True, corpus, 1)
 
     # bundled vocabularies: every tag x every suffix spelling x case x extension kind x prefix
-    model_combos = (1.0 if quick else 0.75)
+    model_combos = (0.7 if quick else 0.75)
     for k in keys:
         for ns in ("", "ts:"):
             # quick: the full cross product without prefix, a third of the combinations with prefix
             cases = structured_cases(rng, vocs[k], ns, 4 if (quick and ns and not wide) else None)
-            cases += malformed_cases(rng, vocs[k], ns, 1500 if quick else 6000)
+            cases += malformed_cases(rng, vocs[k], ns, 800 if quick else 6000)
             cases += unicode_cases(rng, vocs[k], ns, 150 if quick else 600)
             cases += placeholder_cases(rng, vocs[k], ns, 40 if quick else 200)
             if wide:
@@ -860,7 +870,7 @@ def _run(tier, seed, res, rng, model_ok, proof_ok):
             add_group(spec, ns, voc, True, cases, 1 if wide else 0.08, dispatch=len(members) > 1)
 
     # generated schemas: small trees with name collisions by suffix and by case, '#' children
-    n_gen = (100 if quick else 1500) * (3 if wide else 1)
+    n_gen = (70 if quick else 1500) * (3 if wide else 1)
     for i in range(n_gen):
         spec, names = gen_schema(rng, i)
         voc = Vocab(spec[1], names, False)
@@ -991,7 +1001,24 @@ def _run(tier, seed, res, rng, model_ok, proof_ok):
     timing["schema_histories"] = round(_t.time() - T0, 1)
     f_steps = H.run_form_histories(res, rng, tier, me, vocs, _SCRATCH)
     timing["form_histories"] = round(_t.time() - T0, 1)
-    evaluations += h_evals + f_steps
+    # ---------------- whole columns through the column entry points (harness/c03_cols.py)
+    from harness import c03_cols as CO
+    cjobs, cmeta = [], []
+    for gi, (spec, ns, voc, wf, cases, idx) in enumerate(groups):
+        if gi == 0 or spec[0] == "xml" or not wf:
+            continue
+        ncol = (24 if spec[0] == "file" else 6) * (1 if quick else 4)
+        cols = CO.make_columns(rng, me, voc, ns, ncol)
+        for a in range(0, len(cols), 12):
+            cjobs.append((spec[:3], ns, _SCRATCH, [[c[0] for c in col] for col in cols[a:a + 12]]))
+            cmeta.append((spec, ns, cols[a:a + 12]))
+    with Pool(int(C.JOBS), initializer=_winit, initargs=(_SCRATCH,)) as pool:
+        couts = pool.map(CO.columns_worker, cjobs, chunksize=1)
+    col_cells = 0
+    for (spec, ns, cols), o in zip(cmeta, couts):
+        col_cells += CO.check_columns(res, spec, ns, cols, o)
+    timing["columns"] = round(_t.time() - T0, 1)
+    evaluations += h_evals + f_steps + col_cells
     corr_cases += h_corr
     disagreements += h_dis
 
@@ -1026,6 +1053,7 @@ def _run(tier, seed, res, rng, model_ok, proof_ok):
         "tables_compared": len(groups),
         "fixed_semantics": bool(FIXED),
         "schema_history_scenarios": h_scen, "schema_history_lookups": h_evals, "form_history_steps": f_steps,
+        "column_cells": col_cells, "columns": sum(len(m[2]) for m in cmeta),
         "timing_s": dict(timing, total=round(_t.time() - T0, 1)),
     }
 
@@ -1033,6 +1061,9 @@ def _run(tier, seed, res, rng, model_ok, proof_ok):
 def replay(payload):
     global _SCRATCH
     case = payload.get("case") or {}
+    if case.get("kind") == "column":
+        from harness import c03_cols as CO
+        return CO.replay(case)
     if case.get("kind") in ("schema-history", "tag-history", "string-history"):
         from harness import c03_hist as H
         return H.replay(case)
